@@ -118,6 +118,11 @@ def run_impl(c):
         wb = c.get("wrapper_box")
         if wb is not None:
             active = D.BayesRule(list(parts), lower_bounds=arr(wb[0]), upper_bounds=arr(wb[1]))
+        elif len(parts) >= 2 and (len(parts) + d) % 2 == 0:
+            # the same posterior built incrementally (prior added last): its bounds are inherited all the same
+            active = D.BayesRule(list(parts[:1]))
+            for p_ in parts[1:]:
+                active.add_distribution(p_)
         else:
             active = D.BayesRule(list(parts))
         second = D.BayesRule([parts[0], D.Normal(means.copy(), 2 * numpy.ones((d, 1)))])   # reuse of the first part
